@@ -6,7 +6,7 @@
      ArgumentParser.instantiate_classes (depth sort, reorder, component loop)  jsonargparse/_core.py:1214-1256
    Keys are dotted strings exactly as in the code (str = list of code points); the string operations used by the code
    (split("."), rsplit(".",1), re.sub(r"\.init_args$",""), startswith(key+"."), replace("init_args.","init_args|"))
-   are written out below.  Executable definitions only; proofs live in Proofs/LinkOrderProofs.v. *)
+   are written out below.  Executable definitions only; proofs live in Proofs/C16LinkProofs.v (general) and Proofs/C16SmallSpace.v (kernel-evaluated product). *)
 From JV Require Import Lib.Base Model.Graph.
 
 Definition dot : N := 46%N.
@@ -149,6 +149,29 @@ Definition resolve_src (cs : list comp) (k : str) : option comp :=
 Definition src_dests (cs : list comp) (l : link) : list str :=
   flat_map (fun k => match resolve_src cs k with Some c => [c_dest c] | None => [] end) (l_srcs l).
 
+(* is_nested_instantiation_link(action), with action.target[1] = the class-typed action owning the target key *)
+Definition target_action (cs : list comp) (l : link) : option comp :=
+  deepest None (filter (fun c => is_type c && matches (c_dest c) (l_target l)) cs).
+Definition is_nested (cs : list comp) (l : link) : bool :=
+  match target_action cs l with
+  | None => false
+  | Some c =>
+      prefix_b (c_dest c ++ dot :: s_init_args ++ [dot]) (l_target l)
+      && forallb (fun k => match resolve_src cs k with
+                           | Some c' => str_eqb (c_dest c') (c_dest c) && prefix_b (c_dest c ++ [dot]) k
+                           | None => false
+                           end) (l_srcs l)
+  end.
+
+(* ---- variants of the code ------------------------------------------------------------------
+   The model is written once for the pinned code and for the code after the two proposed repairs:
+     fx_order  = fixes/C16-nested-target-order.patch (instantiation_order: prefix edges to every linked component)
+     fx_source = fixes/C16-source-under-group.patch   (instantiated class-typed sources are looked up in a record)
+   `nofix` is the pinned tree.  Everything from here to the end of the file lives in a Section over `fx`. *)
+Record fixes := { fx_order : bool; fx_source : bool }.
+Definition nofix : fixes := {| fx_order := false; fx_source := false |}.
+Definition allfix : fixes := {| fx_order := true; fx_source := true |}.
+
 (* ---- instantiation_order ----------------------------------------------------------------- *)
 
 Definition target_node (l : link) : str := strip_init_args (key_parent (l_target l)).
@@ -182,7 +205,20 @@ Definition phase2 (ls : list link) : list (str * str) :=
   | t0 :: rest => phase2_loop rest [t0]
   end.
 
-Definition link_edges (cs : list comp) (ls : list link) : list (str * str) := phase1 cs ls ++ phase2 ls.
+(* after fixes/C16-nested-target-order.patch: `linked` = targets | sources of the links that are not nested; every target,
+   the shallowest included, gets an edge to each of its prefixes that is linked *)
+Definition linked_nodes (cs : list comp) (ls : list link) : list str :=
+  map target_node ls ++ flat_map (fun l => if is_nested cs l then [] else src_dests cs l) ls.
+Definition phase2_fixed (cs : list comp) (ls : list link) : list (str * str) :=
+  let linked := linked_nodes cs ls in
+  flat_map (fun t => map (fun p => (t, p)) (filter (fun p => mem_str p linked) (target_prefixes t)))
+           (sort_targets (dedup (map target_node ls))).
+
+Section Variant.
+Variable fx : fixes.
+
+Definition link_edges (cs : list comp) (ls : list link) : list (str * str) :=
+  phase1 cs ls ++ (if fx_order fx then phase2_fixed cs ls else phase2 ls).
 
 Definition inst_order (cs : list comp) (ls : list link) : topo_out :=
   match ls with
@@ -245,7 +281,8 @@ Definition source_object (cs : list comp) (st : state) (k : str) : src_res :=
   | None => SRaise
   | Some c =>
       let inst := mem_str (c_dest c) (st_inst st) in
-      if under_instantiated_group c st then SRaise        (* cfg[dest] goes through an object: NSKeyError *)
+      if under_instantiated_group c st && negb (fx_source fx && is_type c && inst)
+      then SRaise        (* cfg[dest] goes through an object: NSKeyError (fx_source: taken from `instantiated` instead) *)
       else if str_eqb k (c_dest c) then SVal (if inst then BObj (c_dest c) else BNs (c_dest c))   (* cfg[dest]: object, or still a Namespace *)
       else if inst then SVal (BAttr (c_dest c))                                     (* getattr(object, attr) *)
       else if is_type c then SSkip              (* not hasattr(namespace, attr): link ignored for now *)
@@ -281,20 +318,6 @@ Fixpoint apply_list (cs : list comp) (ls : list link) (st : state) : option stat
   match ls with
   | [] => Some st
   | l :: ls' => match apply_one cs st l with None => None | Some st' => apply_list cs ls' st' end
-  end.
-
-(* is_nested_instantiation_link(action), with action.target[1] = the class-typed action owning the target key *)
-Definition target_action (cs : list comp) (l : link) : option comp :=
-  deepest None (filter (fun c => is_type c && matches (c_dest c) (l_target l)) cs).
-Definition is_nested (cs : list comp) (l : link) : bool :=
-  match target_action cs l with
-  | None => false
-  | Some c =>
-      prefix_b (c_dest c ++ dot :: s_init_args ++ [dot]) (l_target l)
-      && forallb (fun k => match resolve_src cs k with
-                           | Some c' => str_eqb (c_dest c') (c_dest c) && prefix_b (c_dest c ++ [dot]) k
-                           | None => false
-                           end) (l_srcs l)
   end.
 
 Definition pending (cs : list comp) (ls : list link) (st : state) : list link :=
@@ -466,3 +489,20 @@ Definition group_nested_source (cs : list comp) (ls : list link) : bool :=
                                                      && negb (matches (c_dest c') (l_target l))) cs
                       | None => false
                       end) (l_srcs l)) ls.
+
+End Variant.
+
+(* ---- the guard of the C16 link theorems = the finding class of the correspondence judge ------------------------
+   class 0 = inside the guards of the C16 link theorems (Properties/C16.v);
+   class 3 = a link from an attribute of a component into an object nested in the same component (a cycle between the
+             objects) that link_arguments takes for a "nested" link and hands to the sub-parser (finding nested-self-link);
+   class 2 = a source nested in a class group feeds a target outside the group (finding source-under-group; none when
+             fx_source);
+   class 1 = a component that is only a source of links encloses the target of another link (finding
+             nested-target-order; with fx_order the test is evaluated on the repaired edges) *)
+Definition link_class (fx : fixes) (ds : list decl) (ls : list link) : N :=
+  let cs := components ds in
+  if existsb (is_nested cs) ls then 3%N
+  else if negb (fx_source fx) && group_nested_source cs ls then 2%N
+  else if negb (enclosing_ok_all fx cs ls) then 1%N
+  else 0%N.
